@@ -341,6 +341,72 @@ pub fn import_projects() -> Vec<Vec<(String, String)>> {
     out
 }
 
+/// Fragments the root (files[0]) imports, transitively: for every import line of every reached file the
+/// named (or all) fragments of the file its path leads to from the importing file's directory.
+/// None when a line names a missing file or fragment (not an accepted project).
+fn ref_import_closure(files: &[(String, String)]) -> Option<Vec<ExecDef>> {
+    let docs: Vec<ExecDoc> = files.iter().map(|f| crate::rparse::parse_exec(&f.1).ok()).collect::<Option<_>>()?;
+    let mut out: Vec<ExecDef> = vec![];
+    let mut taken: BTreeSet<(usize, String)> = BTreeSet::new();
+    let mut visited: BTreeSet<usize> = BTreeSet::new();
+    let mut stack = vec![0usize];
+    while let Some(fi) = stack.pop() {
+        if !visited.insert(fi) {
+            continue;
+        }
+        let dir = files[fi].0.rsplit_once('/').map_or("", |x| x.0);
+        for d in &docs[fi].defs {
+            let ExecDef::Import { targets, path, .. } = d else { continue };
+            let target = crate::cli::norm_path(&format!("{dir}/{}", path.1));
+            let ti = files.iter().position(|f| f.0 == target)?;
+            stack.push(ti);
+            let frags: Vec<&ExecDef> = docs[ti].defs.iter().filter(|d| matches!(d, ExecDef::Frag { .. })).collect();
+            let name_of = |d: &ExecDef| if let ExecDef::Frag { name, .. } = d { name.s.clone() } else { String::new() };
+            for t in targets {
+                match t {
+                    None => {
+                        for f in &frags {
+                            if ti != 0 && taken.insert((ti, name_of(f))) {
+                                out.push((*f).clone());
+                            }
+                        }
+                    }
+                    Some(n) => {
+                        let f = frags.iter().find(|f| name_of(f) == n.s)?;
+                        if ti != 0 && taken.insert((ti, n.s.clone())) {
+                            out.push((*f).clone());
+                        }
+                    }
+                }
+            }
+        }
+    }
+    Some(out)
+}
+
+/// the same specifier text in two directories: four-file projects
+pub fn same_specifier_projects() -> Vec<Vec<(String, String)>> {
+    let mut out = vec![];
+    for card_first in [false, true] {
+        for spelling in ["./shared.graphql", "shared.graphql"] {
+            for wildcard in [false, true] {
+                for root_takes_shared in [false, true] {
+                    // the root takes `Local` (or `Shared` itself, then the nested file takes `Inner`) from ITS ./shared.graphql
+                    let (root_name, nested_name) = if root_takes_shared { ("Shared", "Inner") } else { ("Local", "Shared") };
+                    let l1 = format!("#import {root_name} from \"{spelling}\"\n");
+                    let l2 = "#import Card from \"./card/card.graphql\"\n".to_string();
+                    let main = format!("{}query Q {{ u {{ ...{root_name} friends {{ ...Card }} }} }}\n", if card_first { format!("{l2}{l1}") } else { format!("{l1}{l2}") });
+                    let root_shared = "fragment Local on User { id }\nfragment Shared on User { name }\nfragment Inner on User { born }\n".to_string();
+                    let card = format!("#import {} from \"{spelling}\"\nfragment Card on User {{ kind ...{nested_name} }}\n", if wildcard { "*" } else { nested_name });
+                    let card_shared = if wildcard { format!("fragment {nested_name} on User {{ age }}\n") } else { "fragment Shared on User { age }\nfragment Inner on User { age kind }\nfragment Local on User { age id }\n".to_string() };
+                    out.push(vec![("/p/main.graphql".to_string(), main), ("/p/shared.graphql".to_string(), root_shared), ("/p/card/card.graphql".to_string(), card), ("/p/card/shared.graphql".to_string(), card_shared)]);
+                }
+            }
+        }
+    }
+    out
+}
+
 pub fn run(args: &RunArgs) -> i32 {
     let rep = Reporter::new("C12", &args.tier);
     crate::util::install_hook();
@@ -462,20 +528,19 @@ pub fn run(args: &RunArgs) -> i32 {
     // projects with imported fragments (in-process printers with imports resolved, and the loader's multi-file protocol)
     let import_cases = AtomicU64::new(0);
     let import_docs = AtomicU64::new(0);
-    let projects = import_projects();
+    let mut projects = import_projects();
+    projects.extend(same_specifier_projects());
     crate::explore::par_for(projects.len(), args.threads, |i| {
         let files = &projects[i];
         let case = |route: &str, extra: J| json!({"files": files, "route": route, "detail": extra});
-        // reference: the root's own definitions + every fragment of the other files, as one document
+        // reference: the root's own definitions + the fragments its import lines (and those of every
+        // file reached through them) name, each (file, name) once, as one document
         let mut combined = ExecDoc::default();
         let Ok(root_doc) = crate::rparse::parse_exec(&files[0].1) else { return };
         let own: Vec<ExecDef> = root_doc.defs.iter().filter(|d| !matches!(d, ExecDef::Import { .. })).cloned().collect();
         combined.defs.extend(own.iter().cloned());
-        for f in &files[1..] {
-            if let Ok(d) = crate::rparse::parse_exec(&f.1) {
-                combined.defs.extend(d.defs.into_iter().filter(|d| matches!(d, ExecDef::Frag { .. })));
-            }
-        }
+        let Some(imported) = ref_import_closure(files) else { return };
+        combined.defs.extend(imported);
         let s = subject_schema();
         let ops: Vec<(PathBuf, String)> = files.iter().map(|(p, t)| (PathBuf::from(p), t.clone())).collect();
         let outs = catch(|| {
@@ -576,7 +641,7 @@ pub fn run(args: &RunArgs) -> i32 {
         "embedded_documents_compared": compared.load(Ordering::Relaxed),
         "samples": [sample.lock().unwrap().clone().unwrap_or_default()],
     });
-    rep.finish(cov, vec!["R-GJS: independent reader of the graphql-js AST JSON shape; values compared verbatim, positions ignored, fragment order ignored".into(), "imported fragments: explicit enumeration of three-file projects (import forms x transitive import x local fragment x spread subsets x second operation) through the printers with imports resolved and through the loader's multi-file protocol".into()])
+    rep.finish(cov, vec!["R-GJS: independent reader of the graphql-js AST JSON shape; values compared verbatim, positions ignored, fragment order ignored".into(), "imported fragments: explicit enumeration of three-file projects (import forms x transitive import x local fragment x spread subsets x second operation) and of four-file projects in which two directories use the same specifier text for different files, judged against a reference import closure, through the printers with imports resolved and through the loader's multi-file protocol".into()])
 }
 
 /// worker: emit_js for a single-file task
